@@ -28,6 +28,7 @@ RULE = ("sets of 1-8 segments (thorough: up to 12) with integer end points in a 
         "edges with 0, 1 or 2 tag rows; built on purpose: proper crossings with fractional intersection points, several lines through "
         "one fractional point, T-junctions, shared end points, collinear overlaps / containment / touching / chains of collinear pieces, "
         "exact and reversed duplicates with different tags, parallel non-collinear pairs, isolated far-away segments, axis-aligned segments; "
+        "30% of the cases are networks: a polyline, star or closed polygon of 3-5 legs given with SHARED low point indices (optionally after unused leading points), one or two legs properly crossed by 3-8 short segments (some chained through shared indices), the other legs untouched, plus extra segments between existing low-index points; parent order shuffled or base first. "
         "no zero-length segments. non-trivial = at least one pair of input segments has a common point; distinct = distinct (points, edges)")
 TRUSTED = [
     "modelled, not verified: binary64 rounding in segments_2d and the tolerance-based point merging of uniquify_point_set (the model "
@@ -77,7 +78,84 @@ def _inside(p, B):
     return abs(p[0]) <= B and abs(p[1]) <= B
 
 
+def _proper_cross(a, b, c, d):
+    o1, o2 = _sgn(_cross(a, b, c)), _sgn(_cross(a, b, d))
+    o3, o4 = _sgn(_cross(c, d, a)), _sgn(_cross(c, d, b))
+    return o1 * o2 < 0 and o3 * o4 < 0
+
+
+def _gen_network(rng, tier):
+    """Polyline / star / closed polygon given with SHARED low point indices, one or two of its legs crossed by
+    3-8 short segments (many new intersection points on one parent), the other legs mostly untouched."""
+    B = 10
+    shape = rng.choice(["polyline", "polyline", "star", "polygon"])
+    k = rng.randint(3, 5)
+    while True:
+        base = [_rand_pt(rng, B) for _ in range(k + (1 if shape == "star" else 0))]
+        if len(set(base)) == len(base):
+            break
+    pts = [list(_rand_pt(rng, B)) for _ in range(rng.choice([0, 0, 0, 1, 2]))]  # unused leading points shift the indices
+    off = len(pts)
+    pts += [list(q) for q in base]
+    if shape == "polyline":
+        legs = [(i, i + 1) for i in range(k - 1)]
+    elif shape == "polygon":
+        legs = [(i, (i + 1) % k) for i in range(k)]
+    else:
+        legs = [(0, i) for i in range(1, k + 1)]
+    legs = [(a, b) if rng.random() < 0.7 else (b, a) for a, b in legs]
+    edges = [[off + a, off + b] for a, b in legs]
+    ncrossed = rng.choice([1, 1, 1, 2])
+    for li in rng.sample(range(len(legs)), min(ncrossed, len(legs))):
+        a, b = base[legs[li][0]], base[legs[li][1]]
+        m = rng.randint(3, 8 if tier == "quick" else 10)
+        lo = (min(a[0], b[0]) - 2, min(a[1], b[1]) - 2)
+        hi = (max(a[0], b[0]) + 2, max(a[1], b[1]) + 2)
+        got, guard = 0, 0
+        while got < m and guard < 300:
+            guard += 1
+            c = (rng.randint(lo[0], hi[0]), rng.randint(lo[1], hi[1]))
+            if rng.random() < 0.6:  # short crosser
+                d = (c[0] + rng.randint(-3, 3), c[1] + rng.randint(-3, 3))
+            else:
+                d = (rng.randint(lo[0], hi[0]), rng.randint(lo[1], hi[1]))
+            if c != d and _proper_cross(a, b, c, d):
+                if rng.random() < 0.15 and len(pts) > off + len(base):  # chain: start at an earlier crosser's end point (shared index)
+                    j = rng.randrange(off + len(base), len(pts))
+                    c2 = tuple(pts[j])
+                    if c2 != d and _proper_cross(a, b, c2, d):
+                        pts.append(list(d))
+                        edges.append([j, len(pts) - 1])
+                        got += 1
+                        continue
+                pts.append(list(c))
+                pts.append(list(d))
+                edges.append([len(pts) - 2, len(pts) - 1] if rng.random() < 0.5 else [len(pts) - 1, len(pts) - 2])
+                got += 1
+    for _ in range(rng.choice([0, 0, 1, 2])):  # extra untouched or touching segments between existing low-index points / new points
+        if rng.random() < 0.5 and len(base) >= 3:
+            i, j = rng.sample(range(len(base)), 2)
+            if [off + i, off + j] not in edges and [off + j, off + i] not in edges:
+                edges.append([off + i, off + j])
+        else:
+            a, b = _rand_seg(rng, B)
+            pts += [list(a), list(b)]
+            edges.append([len(pts) - 2, len(pts) - 1])
+    nb = len(legs)
+    if rng.random() < 0.5:  # parent order: keep the base first, or shuffle everything
+        rng.shuffle(edges)
+    else:
+        tail = edges[nb:]
+        rng.shuffle(tail)
+        edges = edges[:nb] + tail
+    ntags = rng.choice([0, 1, 1, 1, 2])
+    edges = [e + [rng.choice([i + 10, rng.randint(0, 3)]) for _ in range(ntags)] for i, e in enumerate(edges)]
+    return {"pts": pts, "edges": edges, "ntags": ntags, "float_input": rng.random() < 0.5}
+
+
 def gen_case(rng, tier):
+    if rng.random() < 0.3:
+        return _gen_network(rng, tier)
     B = rng.choice([2, 3, 4, 6, 10])
     nmax = 8 if tier == "quick" else 12
     n = rng.choice([1, 2, 2, 3, 3, 4, 4, 5, 6, 7, nmax])
@@ -473,9 +551,17 @@ def stats(cases, impl_outs):
     nout = Counter()
     trivial_branch = 0
     frac_pts = 0
+    shared_idx = 0
+    many_cross = Counter()
     for c, o in zip(cases, impl_outs):
         kinds.update(set(_kinds(c)) or {"no-common-point"})
         nseg[len(c["edges"])] += 1
+        used = [i for ed in c["edges"] for i in ed[:2]]
+        if len(set(used)) < len(used):
+            shared_idx += 1
+        sg = _segs_of(c)
+        mc = max((sum(1 for j, t in enumerate(sg) if j != i and _proper_cross(s_[0], s_[1], t[0], t[1])) for i, s_ in enumerate(sg)), default=0)
+        many_cross[min(mc, 8)] += 1
         ntag[c["ntags"]] += 1
         if isinstance(o, dict) and "edges" in o:
             nout[min(len(o["edges"]), 30)] += 1
@@ -485,6 +571,7 @@ def stats(cases, impl_outs):
                 frac_pts += 1
     return {"cases_with_pair_kind": dict(kinds), "segments_per_case": {str(k): v for k, v in sorted(nseg.items())},
             "tag_rows": {str(k): v for k, v in sorted(ntag.items())}, "output_edges_per_case(capped 30)": {str(k): v for k, v in sorted(nout.items())},
+            "cases_with_shared_point_indices": shared_idx, "max_proper_crossings_on_one_segment(capped 8)": {str(k): v for k, v in sorted(many_cross.items())},
             "cases_where_output_equals_input_count": trivial_branch, "cases_with_non_dyadic_intersection_point": frac_pts,
             "errors": sum(1 for o in impl_outs if isinstance(o, dict) and ("err" in o or "harness_exc" in o))}
 
